@@ -18,13 +18,13 @@ Open Scope Z_scope.
 Definition pct_len (round : Z) (n : f64) : Z := rune_count (pct_num round n) + 1.
 
 (* the cell is rendered to exactly w runes: always for the cells of Model/Table.v (given the
-   width dominates the minimal length); for a percent cell iff --digits is not negative (fmt
+   width dominates the minimal length); for a percent cell iff --digits is in 0..1e6 (fmt
    writes "%!(BADPREC)" in front of the padded numeral otherwise) and numeral and percent sign
    fit into w; for a NaN -- nothing is written -- iff w = 0 *)
 Definition pcell_fits_b (round : Z) (c : pcell) (w : Z) : bool :=
   match c with
   | WBase _ => true
-  | WPct n => if f64_is_nan n then w =? 0 else (0 <=? round) && (pct_len round n <=? w)
+  | WPct n => if f64_is_nan n then w =? 0 else negb (pct_badprec round) && (pct_len round n <=? w)
   end.
 
 Definition wtable_fits_b (round : Z) (t : wtable) : bool :=
